@@ -1,5 +1,7 @@
 // target: kiki/src/data/validated_file.rs
 // leaves: File::get_defined_identifiers (props C05 C06 C07), File::get_rules (props C17 C04 C11 C07 C10)
+// props leaf_get_defined_identifiers: C05 C07
+// props leaf_get_rules: C17 C04 C11 C07 C10
 // covers leaf_get_defined_identifiers: fn get_defined_identifiers, fn get_nonterminal_names, fn get_terminal_enum_variant_names
 // covers leaf_get_rules: fn get_rules
 // bound: all validated files with <= 2 nonterminals (struct with 0..2 tuple fields / enum with 0..2 variants), names from a pool of 4,
